@@ -7,6 +7,8 @@ import Proofs.C06.Base58
 import Proofs.C06.Address
 import Proofs.C06.TwoErr
 import Proofs.C06.KeyText
+import Proofs.C06.SubString
+import Proofs.C06.RefEquiv
 /-!
 # C06 — text encodings and addresses round-trip and accept exactly what the specs accept
 
@@ -86,11 +88,11 @@ theorem bech32_roundtrip_by_version (hrp : List Nat) (ver : Nat) (rest : List Na
 
 example : encodeNat [98, 99] [0, 1, 2] none = .ok ("bc1qpz58kw9e".toList.map Char.toNat) := by decide
 
-/-- T3 (two substitutions): two value sequences of ANY length that differ in two positions at most 1023
-    values apart (1022 values in between — every address, whose expanded length is about 100) never share a
-    checksum: any corruption of one or two characters of the data part is refused. Proved from the residue
-    table x^k·d ∉ {0..31} for k = 1..1022, d = 1..31 (`decide +kernel`), lifted by linearity and the trivial
-    kernel of the zero-input step. -/
+/-- T3 (two substitutions): two value sequences of ANY length that differ in two positions at most 1022
+    positions apart (at most 1021 values in between, `mid.length < 1022`; every address has about 100 values)
+    never share a checksum. Distance 1023 is the period of x in GF(32)[x]/g and is NOT detectable, so 1022 is
+    the exact limit. Proved from the residue table x^k·d ∉ {0..31} for k = 1..1022, d = 1..31
+    (`decide +kernel`), lifted by linearity and the trivial kernel of the zero-input step. -/
 theorem two_substitutions_detected (pre mid post : List Nat) (v1 v1' v2 v2' m : Nat)
     (hmid : ∀ x ∈ mid, x < 2 ^ 30) (hpost : ∀ x ∈ post, x < 2 ^ 30)
     (h1 : v1 < 32) (h1' : v1' < 32) (h2 : v2 < 32) (h2' : v2' < 32) (hne : v1 ≠ v1') (hw : mid.length < 1022)
@@ -98,6 +100,59 @@ theorem two_substitutions_detected (pre mid post : List Nat) (v1 v1' v2 v2' m : 
     Bech32.polymod (pre ++ v1' :: (mid ++ v2' :: post)) ≠ m := by
   intro h'
   exact two_substitutions pre mid post v1 v1' v2 v2' hmid hpost h1 h1' h2 h2' hne hw (h.trans h'.symm)
+
+/-- T2 (encode ∘ decode): a string `bech32.decode` accepts re-encodes, with the same `m`, to exactly its
+    lower-cased self: one spelling per (hrp, data) up to the case of the whole string. -/
+theorem bech32_encode_decode (s hrp data : List Nat) (m : Option Nat) (h : Bech32.decode s m = .ok (hrp, data)) :
+    encodeNat hrp data m = .ok (lower s) := Bech32.encode_decode s hrp data m h
+
+/-- T3 at the string level (explicit constant): changing ONE character after the separator of an accepted
+    string — to anything but a separator or the other case of the same letter — gives a string the decoder
+    refuses. Any length. -/
+theorem substitution_refused (pre a b : List Nat) (x x' m : Nat) (h49 : 49 ∉ a ++ x :: b) (hx' : x' ≠ 49)
+    (hne : lowerC x ≠ lowerC x') (r : List Nat × List Nat)
+    (h1 : Bech32.decode (pre ++ 49 :: (a ++ x :: b)) (some m) = .ok r) :
+    ∀ r', Bech32.decode (pre ++ 49 :: (a ++ x' :: b)) (some m) ≠ .ok r' :=
+  Bech32.substitution_refused pre a b x x' m h49 hx' hne r h1
+
+/-- T3 at the string level, constant read off the witness version (`decode(s)` as addresses use it): the same,
+    INCLUDING the version character, where the expected constant switches between bech32 and bech32m — a
+    single substitution never maps one constant's codeword onto the other's (residue table, at most 1022
+    characters after the changed one). -/
+theorem substitution_refused_version_constant (pre a b : List Nat) (x x' : Nat) (h49 : 49 ∉ a ++ x :: b)
+    (hx' : x' ≠ 49) (hne : lowerC x ≠ lowerC x') (hb : b.length ≤ 1022) (r : List Nat × List Nat)
+    (h1 : Bech32.decode (pre ++ 49 :: (a ++ x :: b)) none = .ok r) :
+    ∀ r', Bech32.decode (pre ++ 49 :: (a ++ x' :: b)) none ≠ .ok r' :=
+  Bech32.substitution_refused_none pre a b x x' h49 hx' hne hb r h1
+
+/-- T3 at the string level, two characters (explicit constant): changing two characters after the separator,
+    at most 1022 positions apart, gives a string the decoder refuses. (With `m` None and a changed version
+    character this is a three-term residue question and is NOT proved.) -/
+theorem two_substitutions_refused (pre a mid b : List Nat) (x x' y y' m : Nat)
+    (h49 : 49 ∉ a ++ x :: (mid ++ y :: b)) (hx' : x' ≠ 49) (hy' : y' ≠ 49)
+    (hne : lowerC x ≠ lowerC x') (hw : mid.length < 1022) (r : List Nat × List Nat)
+    (h1 : Bech32.decode (pre ++ 49 :: (a ++ x :: (mid ++ y :: b))) (some m) = .ok r) :
+    ∀ r', Bech32.decode (pre ++ 49 :: (a ++ x' :: (mid ++ y' :: b))) (some m) ≠ .ok r' :=
+  Bech32.two_substitutions_refused pre a mid b x x' y y' m h49 hx' hy' hne hw r h1
+
+/-- T2 (acceptance ⇔ BIP173/BIP350 reference): on every string whose characters before the last separator lie
+    in btclib's 48..122 (`hrpInBtclibRange`; its complement is exactly the known finding `bech32.hrp-range`),
+    the literal transcription of the BIPs' `bech32_decode` answers `(hrp, data, encoding)` if and only if
+    btclib's decoder, given that encoding's constant, answers `(hrp, data)` and the string has at most 90
+    characters (the reference's own cap, which btclib leaves to b32). The ⇐ direction needs no HRP condition:
+    btclib never accepts what the reference refuses. -/
+theorem bech32_decode_iff_reference (s hrp data : List Nat) (spec : Bech32Ref.Encoding)
+    (hrange : hrpInBtclibRange s) :
+    Bech32Ref.decode s = some (hrp, data, spec) ↔
+      (Bech32.decode s (some (specConst spec)) = .ok (hrp, data) ∧ s.length ≤ 90) :=
+  ⟨fun h => ref_imp_decode s hrp data spec hrange h, fun h => decode_imp_ref s hrp data spec h.2 h.1⟩
+
+/-- the ⇐ half alone, unconditionally. -/
+theorem bech32_accepts_only_what_reference_accepts (s hrp data : List Nat) (spec : Bech32Ref.Encoding)
+    (h90 : s.length ≤ 90) (h : Bech32.decode s (some (specConst spec)) = .ok (hrp, data)) :
+    Bech32Ref.decode s = some (hrp, data, spec) := decode_imp_ref s hrp data spec h90 h
+
+example : specConst .bech32 = Gen.Bech32.BECH32_1_CONST ∧ specConst .bech32m = Gen.Bech32.BECH32_M_CONST := by decide
 
 /- NOT proved (`bch_four_errors_partial` would be its name): BIP173's full guarantee — any error pattern
    touching 3 or 4 characters of a string of at most 90 characters is detected. One and two substitutions
@@ -202,8 +257,10 @@ open Btc.Address Gen.Net in
 theorem hrp_separator_prefix_free : ∀ a ∈ NETWORKS, ∀ b ∈ NETWORKS,
     (a.hrp ++ [49]).isPrefixOf (b.hrp ++ [49]) = true → a.hrp = b.hrp := hrp_prefix_free
 
-/-- T5 (program sizes): what `bytes_from_witness_program` admits (table generated by evaluating it) is
-    exactly BIP141: versions 0..16, 2..40 bytes, and 20 or 32 bytes for version 0 — for ALL (ver, n). -/
+/-- T5 (program sizes): the generated table of what `bytes_from_witness_program` admits is exactly BIP141:
+    versions 0..16, 2..40 bytes, 20 or 32 bytes for version 0 — for all (ver, n) as a statement about the
+    TABLE; the table itself is obtained by evaluating the function on versions -2..40 and sizes 0..80
+    (tools/specs/segwit.py), so the tie to the code is within that probed window (and the `segwit.enc` stream). -/
 theorem witness_program_sizes (ver n : Nat) :
     Address.programOk ver n = true ↔ ver ≤ 16 ∧ 2 ≤ n ∧ n ≤ 40 ∧ (ver = 0 → n = 20 ∨ n = 32) :=
   Address.programOk_iff ver n
